@@ -204,6 +204,8 @@ pub trait Property: Sync {
         Ok(())
     }
     /// extra work after the strata (e.g. rustc tier, fresh processes). Returns failures.
+    /// called once before anything else with the run's seed
+    fn init(&self, _tier: Tier, _seed: u64) {}
     fn extra(&self, _tier: Tier, _seed: u64, _stats: &mut Stats) -> Result<(), Failure> {
         Ok(())
     }
@@ -356,6 +358,26 @@ pub fn run_replay(prop: &dyn Property, file: &Path) -> i32 {
     };
     let v: Value = serde_json::from_str(&s).expect("replay json");
     let stratum = v["stratum"].as_str().unwrap_or("").to_string();
+    if let Some(name) = stratum.strip_prefix("probe:") {
+        for probe in prop.probes() {
+            if probe.signature == name {
+                return match catch_unwind(AssertUnwindSafe(|| (probe.run)())) {
+                    Ok(Ok(())) => {
+                        println!("replay: probe {name} passes");
+                        0
+                    }
+                    Ok(Err(f)) if !f.infra => {
+                        println!("replay: {} [{}]", f.msg, f.signature);
+                        println!("VIOLATION property={} replay={}", prop.id(), file.display());
+                        1
+                    }
+                    _ => 2,
+                };
+            }
+        }
+        eprintln!("replay: no probe named {name}");
+        return 2;
+    }
     let mut stats = Stats::default();
     let tape;
     let input = if let Some(t) = v["tape"].as_str() {
@@ -576,6 +598,7 @@ pub fn run_property(prop: &dyn Property, tier: Tier, seed: u64) -> i32 {
         infra: vec![],
     };
 
+    prop.init(tier, seed);
     if let Err(e) = prop.self_check() {
         eprintln!("generator self-check failed: {e}");
         return 2;
